@@ -157,6 +157,9 @@ func init() { register("C16", checkC16) }
 
 func TestC16(t *testing.T) {
 	exhaustive := func(rec *Rec) *replayFile {
+		if shard() != 0 {
+			return nil
+		}
 		for _, kind := range []string{"exception", "engine", "block"} {
 			for mask := 0; mask < 1<<len(c16Mods); mask++ {
 				c := c16Case{Kind: kind, Mods: c16Subset(mask)}
